@@ -18,7 +18,7 @@ CONFIG = 'crates/anemo/src/config.rs'
 TYPES = P.TYPES
 TIMEOUT = 600
 # vacuity guard: cover points that must be reached: history: an add onto an existing entry; ticks: a dial, a re-dial after 1 failure, after 2
-COVER = {'active_peers_history': [0, 1, 2], 'who_is_dialed': [0, 1], 'background_dialing_ticks': [0, 1, 3, 4], 'dial_races_inbound_connect': [0, 3, 5], 'closed_connection_bookkeeping': [0, 1, 2], 'shutdown_after_history': [0, 1, 2], 'mutual_dial_through_manager': [0, 1], 'known_peers_change_during_dial': [0, 6, 7]}
+COVER = {'active_peers_history': [0, 1, 2], 'who_is_dialed': [0, 1], 'background_dialing_ticks': [0, 1, 3, 4], 'dial_races_inbound_connect': [0, 3, 5, 6], 'closed_connection_bookkeeping': [0, 1, 2], 'shutdown_after_history': [0, 1, 2], 'backoff_configurations': [0], 'known_peers_table': [0, 1], 'mutual_dial_through_manager': [0, 1], 'known_peers_change_during_dial': [0, 6, 7]}
 
 PRELUDE = r'''// GENERATED on every run by /verif/vc from /repo's working tree -- do not edit
 #![allow(dead_code, unused, non_upper_case_globals, non_camel_case_types, static_mut_refs)]
@@ -291,7 +291,7 @@ pub fn main() {
     if args.len() == 4 && args[1] == "--replay" {
         // re-run ONE choice sequence with the panic message visible
         let choices: Vec<(u32, u32)> = args[3].split(',').filter(|s| !s.is_empty()).map(|s| (s.trim().parse().unwrap(), u32::MAX)).collect();
-        let f: fn(&mut Chooser) = match args[2].as_str() { "active_peers_history" => harness::active_peers_history, "mutual_dial_converges" => harness::mutual_dial_converges, "who_is_dialed" => harness::who_is_dialed, "dial_races_inbound_connect" => harness::dial_races_inbound_connect, "closed_connection_bookkeeping" => harness::closed_connection_bookkeeping, "shutdown_after_history" => harness::shutdown_after_history, "mutual_dial_through_manager" => harness::mutual_dial_through_manager, "known_peers_change_during_dial" => harness::known_peers_change_during_dial, _ => harness::background_dialing_ticks };
+        let f: fn(&mut Chooser) = match args[2].as_str() { "active_peers_history" => harness::active_peers_history, "mutual_dial_converges" => harness::mutual_dial_converges, "who_is_dialed" => harness::who_is_dialed, "dial_races_inbound_connect" => harness::dial_races_inbound_connect, "closed_connection_bookkeeping" => harness::closed_connection_bookkeeping, "shutdown_after_history" => harness::shutdown_after_history, "backoff_configurations" => harness::backoff_configurations, "known_peers_table" => harness::known_peers_table, "mutual_dial_through_manager" => harness::mutual_dial_through_manager, "known_peers_change_during_dial" => harness::known_peers_change_during_dial, _ => harness::background_dialing_ticks };
         reset_statics();
         let mut ch = Chooser { path: choices, pos: 0 };
         f(&mut ch);
@@ -306,6 +306,8 @@ pub fn main() {
     run_all("dial_races_inbound_connect", harness::dial_races_inbound_connect);
     run_all("closed_connection_bookkeeping", harness::closed_connection_bookkeeping);
     run_all("shutdown_after_history", harness::shutdown_after_history);
+    run_all("backoff_configurations", harness::backoff_configurations);
+    run_all("known_peers_table", harness::known_peers_table);
     run_all("mutual_dial_through_manager", harness::mutual_dial_through_manager);
     run_all("known_peers_change_during_dial", harness::known_peers_change_during_dial);
 }
@@ -315,6 +317,7 @@ pub mod harness {
     const P1: PeerId = PeerId([1; 32]);
     const P2: PeerId = PeerId([2; 32]);
     const P3: PeerId = PeerId([3; 32]);
+    const LOW: PeerId = PeerId([0; 32]);       // an own id SMALLER than every peer's: our dial loses a simultaneous-dial tie-break
     fn conn(sid: usize, peer: PeerId, orig: ConnectionOrigin) -> Connection { Connection { sid, peer, orig } }
     fn any_origin(ch: &mut Chooser) -> ConnectionOrigin { if ch.any_bool() { ConnectionOrigin::Inbound } else { ConnectionOrigin::Outbound } }
     fn any_affinity(ch: &mut Chooser) -> PeerAffinity { let a = ch.below(3); if a == 0 { PeerAffinity::High } else if a == 1 { PeerAffinity::Allowed } else { PeerAffinity::Never } }
@@ -541,7 +544,47 @@ pub mod harness {
         assert!(replay(event_len()) == Some((false, false)), "the event log does not replay to the empty listing after shutdown (a listed peer got no LostPeer, or one got two)");
         assert!(unsafe { IDLE_WAITS } >= 1 && unsafe { REBINDS } >= 1, "shutdown did not wait for the endpoint to be idle, or did not swap the socket out");
     }
-    pub fn dial_races_inbound_connect(ch: &mut Chooser) { // @EOBL [C13,C06] @BOUNDED every run of 3 connectivity checks over 2 High-affinity peers (one address each, no cap) in which a peer that is being dialed may itself connect to us before that dial completes, the dial then failing, succeeding or staying in flight: the connection manager never panics (in particular every dial it started is answered to whoever waits for it), never dials a connected peer, and the back-off / rotation / one-dial-per-peer rules still hold
+    pub fn backoff_configurations(ch: &mut Chooser) { // @EOBL [C13] @BOUNDED DialBackoffState::{new, update} for every back-off configuration out of step 0 / 5 s / 10 s (or unset) x cap 0 / 5 s / 10 s / 60 s (or unset) -- including a cap BELOW the step -- and 1..4 consecutive failures: never a panic; after k failures the next attempt is allowed exactly min(cap, k x step) after the failure was noticed
+        let step = [None, Some(0u64), Some(5_000), Some(10_000)][ch.below(4) as usize];
+        let cap = [None, Some(0u64), Some(5_000), Some(10_000), Some(60_000)][ch.below(5) as usize];
+        let config = Config { max_concurrent_outstanding_connecting_connections: None, connection_backoff_ms: step, max_connection_backoff_ms: cap, max_concurrent_connections: None };
+        let (s_ms, c_ms) = (step.unwrap_or(10_000), cap.unwrap_or(60_000));        // the documented defaults
+        if c_ms < s_ms { cover(0); }
+        let now = Instant(1_000_000_000_000);
+        // (the two durations are read through the real Config accessors, as handle_connectivity_check does)
+        let mut st = DialBackoffState::new(now, config.connection_backoff(), config.max_connection_backoff());
+        let k = 1 + ch.below(4) as u64;
+        let mut i = 1; while i < k { st.update(now, config.connection_backoff(), config.max_connection_backoff()); i += 1; }
+        let want = std::cmp::min(c_ms, s_ms.saturating_mul(k)) * 1_000_000;
+        assert!(st.attempts as u64 == k, "the count of consecutive failures is wrong");
+        assert!(st.backoff.0 == now.0 + want, "after k failures the next attempt must be allowed exactly min(cap, k x step) after the failure was noticed");
+    }
+    pub fn known_peers_table(ch: &mut Chooser) { // @EOBL [C10,C13] @BOUNDED every history of 3 insertions / removals in the known-peer table over 2 peers, each insertion with any affinity (High / Allowed / Never) and 0 or 1 address: the table is a map -- after insert(info) the entry of that peer IS info (affinity and addresses as given, whatever was there before), insert and remove return what was there before, other peers' entries are untouched
+        fn aff_no(a: &PeerAffinity) -> u8 { match a { PeerAffinity::High => 0, PeerAffinity::Allowed => 1, PeerAffinity::Never => 2 } }
+        let kp = KnownPeers::new();
+        let mut model: [Option<(u8, usize)>; 2] = [None, None];
+        let ids = [P1, P2];
+        let mut step = 0;
+        while step < 3 {
+            let p = ch.below(2) as usize;
+            if ch.below(3) < 2 {
+                let aff = any_affinity(ch); let n = ch.below(2) as usize;
+                let mut address = Vec::new(); if n == 1 { address.push(Address(7)); }
+                let before = kp.insert(PeerInfo { peer_id: ids[p], affinity: aff.clone(), address });
+                assert!(before.as_ref().map(|i| (aff_no(&i.affinity), i.address.len())) == model[p], "insert did not return the entry that was there before");
+                if model[p].is_some() { cover(0); if model[p].map(|m| m.0) != Some(aff_no(&aff)) { cover(1); } }
+                model[p] = Some((aff_no(&aff), n));
+            } else {
+                let before = kp.remove(&ids[p]);
+                assert!(before.as_ref().map(|i| (aff_no(&i.affinity), i.address.len())) == model[p], "remove did not return the entry that was there");
+                model[p] = None;
+            }
+            let mut q = 0;
+            while q < 2 { let got = kp.get(&ids[q]); assert!(got.as_ref().map(|i| (aff_no(&i.affinity), i.address.len())) == model[q] && got.map_or(true, |i| i.peer_id == ids[q]), "the known-peer table does not hold what was last inserted for a peer (its affinity or its addresses)"); q += 1; }
+            step += 1;
+        }
+    }
+    pub fn dial_races_inbound_connect(ch: &mut Chooser) { // @EOBL [C13,C06] @BOUNDED every run of 3 connectivity checks over 2 High-affinity peers (one address each, no cap) in which a peer that is being dialed may itself connect to us before that dial completes (our own id greater or smaller than the peer's, so that our dial wins or loses the tie-break), the dial then failing, succeeding or staying in flight: the connection manager never panics (in particular every dial it started is answered to whoever waits for it), never dials a connected peer, and the back-off / rotation / one-dial-per-peer rules still hold
         dialing_run(ch, 100, [P1, P2], [PeerAffinity::High, PeerAffinity::High], [1, 1], false, 3, true, false, None, false);
     }
     pub fn known_peers_change_during_dial(ch: &mut Chooser) { // @EOBL [C13] @BOUNDED every run of 3 connectivity checks over 2 High-affinity peers (one address each, no cap) in which, between checks, a known peer may be removed from the known-peer table and put back (as an application updating a peer does) while its dial fails, succeeds or stays in flight: a peer is never dialed while an earlier dial to it is still in flight, a peer that is not known is not dialed, and the back-off / rotation rules still hold
@@ -549,6 +592,8 @@ pub mod harness {
     }
     fn dialing_run(ch: &mut Chooser, cap: usize, ids: [PeerId; 2], aff: [PeerAffinity; 2], naddr: [usize; 2], connected1: bool, ticks: usize, inbound_race: bool, churn: bool, limit: Option<usize>, unrelated: bool) {
         let config = Arc::new(Config { max_concurrent_outstanding_connecting_connections: Some(cap), connection_backoff_ms: None, max_connection_backoff_ms: None, max_concurrent_connections: limit });
+        // (when peers may dial us at the same time, our own id is either greater than theirs -- our dial wins the tie-break -- or smaller -- it loses)
+        let own = if inbound_race && ch.any_bool() { cover(6); LOW } else { ME };
         let known = KnownPeers::new();
         let mut i = 0;
         while i < 2 {
@@ -558,10 +603,10 @@ pub mod harness {
             i += 1;
         }
         let active = ActivePeers::new(8);
-        if connected1 { let _ = active.add(&ME, conn(1, P2, ConnectionOrigin::Inbound)); }
-        if unrelated { let _ = active.add(&ME, conn(5, P3, ConnectionOrigin::Inbound)); }
+        if connected1 { let _ = active.add(&own, conn(1, P2, ConnectionOrigin::Inbound)); }
+        if unrelated { let _ = active.add(&own, conn(5, P3, ConnectionOrigin::Inbound)); }
         let mut cm = ConnectionManager {
-            config, endpoint: Arc::new(Endpoint { id: ME }), mailbox: mpsc::Receiver { _t: std::marker::PhantomData },
+            config, endpoint: Arc::new(Endpoint { id: own }), mailbox: mpsc::Receiver { _t: std::marker::PhantomData },
             pending_connections: JoinSet::new(), connection_handlers: JoinSet::new(), pending_dials: HashMap::default(), dial_backoff_states: HashMap::default(),
             active_peers: active, known_peers: known, service: Svc,
         };
@@ -610,7 +655,7 @@ pub mod harness {
             // a peer we are dialing may meanwhile connect to us (its own dial won the race): the dial in flight then still completes, either way
             let mut p = 0;
             while p < 2 {
-                if inbound_race && m.dialing[p] && !m.connected[p] && ch.any_bool() { next_sid += 1; let _ = cm.active_peers.add(&ME, conn(next_sid, ids[p], ConnectionOrigin::Inbound)); m.connected[p] = true; cover(5); }
+                if inbound_race && m.dialing[p] && !m.connected[p] && ch.any_bool() { next_sid += 1; let _ = cm.active_peers.add(&own, conn(next_sid, ids[p], ConnectionOrigin::Inbound)); m.connected[p] = true; cover(5); }
                 p += 1;
             }
             // let some of the dials in flight complete: failure or success (the event loop hands the result to handle_connecting_result)
